@@ -45,6 +45,16 @@ for _j in _JUNK + ["/* a", "\"x", "info!(", "info!(\"", "(", "[ref: ", "ref = ",
     CRAFTED.append(('    let globs = ["src%s", "tests%s", "benches%s"];\n' % (_j, _j, _j) * 12).encode("utf-8"))
 
 
+# very deep nesting (a recursive recogniser needs a stack frame per level): 150 000 closed levels of each bracket kind in every
+# argument position
+for _o, _c in ((b"(", b")"), (b"[", b"]"), (b"{", b"}"), (b"/*", b"*/")):
+    _deep = _o * 150000 + b"x" + _c * 150000
+    CRAFTED.append(b'info!(a = f' + _deep + b'; "nested value");\nwarn!("after");\n')
+    CRAFTED.append(b'info!(target: "t", k = v, z = g' + _deep + b', ref = 5; "nested value before a ref");\n')
+    CRAFTED.append(b'let v = h' + _deep + b';\ninfo!("after deep nesting in ordinary code");\n')
+    CRAFTED.append(b'info!("message {}", w' + _deep + b');\n')
+
+
 for _tail in (b"\xc3", b"\xe2\x82", b"\xf0\x9f\x98", b"\xe4", b"\xf0", b"\xf0\x9f"):
     CRAFTED.append(b'fn f() { info!("ok"); }\n// Gr' + _tail)
     CRAFTED.append(b'info!("cut ' + _tail)
